@@ -110,6 +110,12 @@ func (p *PortSet) Union(other *PortSet) {
 
 // ContainedIn: return true if current PortSet object is contained in input PortSet object
 func (p *PortSet) ContainedIn(other *PortSet) bool {
+	for namedPort := range p.NamedPorts {
+		// a named port may be any port number: contained only if other has it too, or if other has all ports
+		if !other.NamedPorts[namedPort] && !other.Ports.Equal(MakePortSet(true).Ports) {
+			return false
+		}
+	}
 	return p.Ports.IsSubset(other.Ports)
 }
 
